@@ -4,7 +4,7 @@
    file-system oracle), Model/IncFns.v (incbin / incbinstr / inchexstr).  Spec: Spec/PathSpec.v. *)
 From Coq Require Import ZArith NArith List Bool.
 From CA Require Import Model.Paths Model.Includes Model.IncFns Spec.PathSpec
-  Proofs.PathsP Proofs.IncludesP Proofs.IncFnsP.
+  Proofs.PathsP Proofs.IncludesP Proofs.IncludesDetP Proofs.IncFnsP.
 Import ListNotations.
 Open Scope nat_scope.
 
@@ -107,6 +107,37 @@ Theorem C14_splice : forall fs fuel root ns o lg,
   expand_root fs fuel root = ROk (ns, o, lg) -> Exp fs root [] ns o.
 Proof. exact expand_root_exp. Qed.
 
+(* the splice expansion is a function: a file system, a root and a once-set determine at most one result.  With
+   C14_splice this makes "the nodes stand exactly where the directive stood" a complete description of a success *)
+Theorem C14_splice_unique : forall fs name once out o out' o',
+  Exp fs name once out o -> Exp fs name once out' o' -> out = out' /\ o = o'.
+Proof. exact Exp_det. Qed.
+
+(* completeness: what the splice expansion yields is what the expansion returns, unless it reports an error *)
+Theorem C14_splice_complete : forall fs dom root ns o,
+  (forall n items, fs n = Some items -> In n dom) ->
+  Exp fs root [] ns o ->
+  expand_root fs (length dom + 2) root <> RErr ->
+  exists lg, expand_root fs (length dom + 2) root = ROk (ns, o, lg).
+Proof. exact expand_root_complete. Qed.
+
+(* the amount of fuel never changes a successful result *)
+Theorem C14_fuel_independent : forall fs f1 f2 root ns1 o1 lg1 ns2 o2 lg2,
+  expand_root fs f1 root = ROk (ns1, o1, lg1) -> expand_root fs f2 root = ROk (ns2, o2, lg2) ->
+  ns1 = ns2 /\ o1 = o2.
+Proof. exact expand_root_fuel_indep. Qed.
+
+(* an error has a cause: the expansion fails only because a reachable name does not exist, a reachable directive's
+   file name is refused, or a reachable directive names a file that is being expanded (it reaches the including
+   file again) -- never spuriously; and a finite file system without such a fault expands to its splice *)
+Theorem C14_error_has_cause : forall fs fuel root, expand_root fs fuel root = RErr -> fault fs root.
+Proof. exact expand_root_err_cause. Qed.
+
+Theorem C14_no_fault_ok : forall fs dom root,
+  (forall n items, fs n = Some items -> In n dom) -> ~ fault fs root ->
+  exists ns o lg, expand_root fs (length dom + 2) root = ROk (ns, o, lg) /\ Exp fs root [] ns o.
+Proof. exact expand_root_ok_of_no_fault. Qed.
+
 (* ---------------------------------------------------------------- inclusion functions *)
 Open Scope Z_scope.
 (* exact characterisation: the requested bytes, and an error for every range that starts at or after the end,
@@ -194,6 +225,13 @@ Example C14_nonvacuous_cycle :
   let fs := fun n => if text_eqb n [97] then Some [Include [97]] else None in
   reach fs [97] [97] /\ on_endless_path fs [97] /\ expand_root fs 3 [97] = RErr.
 Proof. exact cycle_example. Qed.
+
+(* premises of C14_no_fault_ok / C14_error_has_cause are satisfiable: a fault-free system and a faulty one *)
+Example C14_nonvacuous_fault :
+  let fs1 := fun n => if text_eqb n [109] then Some [Other 1] else None in
+  let fs2 := fun n => if text_eqb n [97] then Some [Include [97]] else None in
+  ~ fault fs1 [109] /\ fault fs2 [97] /\ expand_root fs1 3 [109] = ROk ([1], [], [[109]]).
+Proof. exact fault_examples. Qed.
 
 Example C14_nonvacuous_incfns :
   incbin [1; 2; 3] (A3 1 2) = ROk [2; 3] /\ incbin [1; 2; 3] (A3 1 3) = RErr /\ incbin [] (A3 0 0) = RErr /\
